@@ -44,7 +44,9 @@ fn object_member(g: &mut G) -> Value {
     }
     match g.below(8) {
         0 => o["additionalProperties"] = json!(true),
-        1 => o["additionalProperties"] = json!({"type": "integer"}),
+        // a schema-valued additionalProperties makes the merge order dependent
+        // (known finding KF-021): drawn, counted, not emitted
+        1 => gen::excluded("allof-member-with-additional-properties-schema", 1),
         _ => {}
     }
     o
@@ -65,7 +67,17 @@ fn member(g: &mut G, has_base: bool) -> Value {
         1 => json!({"$ref": "#/definitions/Base"}),
         2 => {
             // enum / type restriction on a shared property
-            match g.below(3) {
+            // integer AND number is merged into an uninhabited type (known finding KF-020)
+            let k = g.below(5);
+            let k = if k == 3 {
+                gen::excluded("allof-integer-and-number", 1);
+                4
+            } else {
+                k
+            };
+            match k {
+                3 => json!({"type": "object", "properties": {"a": {"type": "number"}}}),
+                4 => json!({"type": "object", "properties": {"b": {"type": "string", "maxLength": 20}}}),
                 0 => json!({"type": "object", "properties": {"e": {"type": "string", "enum": ["x", "y"]}}}),
                 1 => json!({"type": "object", "properties": {"e": {"type": "string", "enum": ["y", "z"]}}, "required": ["e"]}),
                 _ => json!({"type": "object", "required": ["a"]}),
@@ -245,7 +257,7 @@ impl Property for C09 {
             m.get("type") == Some(&json!("object"))
                 && m.keys().all(|k| matches!(k.as_str(), "type" | "properties" | "required" | "additionalProperties"))
                 && (m.get("properties").and_then(|p| p.as_object()).map(|p| !p.is_empty()).unwrap_or(false) || m.get("required") == Some(&json!(["a"])))
-                && m.get("properties").map(|p| p.as_object().map(|p| p.iter().all(|(k, v)| pool.iter().any(|(n, s)| n == k && (s == v || (k == "e" && v.get("enum").and_then(|e| e.as_array()).map(|e| !e.is_empty() && e.iter().all(|x| ["x", "y", "z"].contains(&x.as_str().unwrap_or("")))).unwrap_or(false) && v.get("type") == Some(&json!("string"))))) || ((k == "p1" || k == "p2") && (v == &json!({"type": "integer"}) || v == &json!({"type": "string"}))))).unwrap_or(false)).unwrap_or(true)
+                && m.get("properties").map(|p| p.as_object().map(|p| p.iter().all(|(k, v)| pool.iter().any(|(n, s)| n == k && (s == v || (k == "a" && v == &json!({"type": "number"})) || (k == "b" && v == &json!({"type": "string", "maxLength": 20})) || (k == "e" && v.get("enum").and_then(|e| e.as_array()).map(|e| !e.is_empty() && e.iter().all(|x| ["x", "y", "z"].contains(&x.as_str().unwrap_or("")))).unwrap_or(false) && v.get("type") == Some(&json!("string"))))) || ((k == "p1" || k == "p2") && (v == &json!({"type": "integer"}) || v == &json!({"type": "string"}))))).unwrap_or(false)).unwrap_or(true)
                 && m.get("required").map(|r| r.as_array().map(|r| r.iter().all(|x| x.is_string())).unwrap_or(false)).unwrap_or(true)
                 && m.get("additionalProperties").map(|a| a.is_boolean() || a == &json!({"type": "integer"})).unwrap_or(true)
         };
